@@ -1182,3 +1182,79 @@ Proof.
   - apply IH; [assumption|assumption|]. intros q x Hq j s Hjs. specialize (Hl (S q) x Hq j s Hjs).
     replace (S p + q)%nat with (p + S q)%nat by lia. exact Hl.
 Qed.
+
+(* ---------------- projections ---------------- *)
+Lemma proj_signal_a : forall es st X Y id s s',
+  esig_ok es (strip_sig s) -> enum_wf (e_of es s) -> Rsig es st id (strip_sig s) s' -> user_asgs_ok (s_attrs s) ->
+  proj_signal (is_enums st) X (set_s_special (set_s_attrs s' (map img (sort_attrs (s_attrs s)))) (s_startval s) (s_sendtype s))
+  = proj_signal es Y s.
+Proof.
+  intros es st X Y id s s' [Hp [Hg [_ [_ [_ [_ Hk]]]]]] Hwf HR [Hnd _]. cbn [s_parent s_groups s_kind strip_sig] in Hp, Hg, Hk.
+  unfold Rsig in HR. cbn [s_kind strip_sig] in HR.
+  destruct (s_kind s) eqn:Ek; [| |destruct Hk].
+  - subst s'. unfold proj_signal, membership, sig_size.
+    rewrite !abs_start_top by (try assumption; reflexivity).
+    cbn [s_kind s_name s_rel s_parent s_groups s_size s_signed s_scale s_offset s_min s_max s_unit s_desc
+         s_startval s_sendtype s_attrs isig_of strip_sig set_s_special set_s_attrs].
+    rewrite Ek, Hp, clear_spaces_idem, (proj_attrs_img _ Hnd). reflexivity.
+  - destruct HR as [ei [-> [_ [Hvals Hsize]]]]. unfold proj_signal, membership, sig_size.
+    rewrite !abs_start_top by (try assumption; reflexivity).
+    cbn [s_kind s_name s_rel s_parent s_groups s_size s_signed s_scale s_offset s_min s_max s_unit s_desc
+         s_startval s_sendtype s_attrs s_enum esig_img strip_sig set_s_special set_s_attrs].
+    change (e_of es (strip_sig s)) with (e_of es s) in Hvals, Hsize.
+    rewrite Ek, Hp, clear_spaces_idem, Hvals, Hsize, (evals_id _ Hwf), (proj_attrs_img _ Hnd). reflexivity.
+Qed.
+
+Lemma zipf_map_eq : forall {A B C} (R : A -> B -> Prop) (f : A -> B -> B) (g : B -> C) (h : A -> C) l l',
+  Forall2 R l l' -> (forall x y, In x l -> R x y -> g (f x y) = h x) -> map g (zipf f l l') = map h l.
+Proof.
+  intros A B C R f g h l l' H. induction H; intros Hf; [reflexivity|]. cbn [zipf map]. f_equal.
+  - apply Hf; [left; reflexivity|assumption].
+  - apply IHForall2. intros a b Ha. apply Hf. right. assumption.
+Qed.
+
+Lemma recs_in_strip : forall m, recs_in (strip_msg m) = recs_in m.
+Proof. intros m. unfold recs_in. cbn [m_signals m_receivers strip_msg]. destruct (m_signals m); reflexivity. Qed.
+
+Lemma proj_message_a : forall names es st m m',
+  emessage es names (strip_msg m) -> (forall s, enum_wf (e_of es s)) -> Rmsg es st (strip_msg m) m' ->
+  user_asgs_ok (m_attrs m) -> 0 <= m_sendtype m < 5 ->
+  Forall (fun s => user_asgs_ok (s_attrs s) /\ fl_canonical (s_startval s) /\ 0 <= s_sendtype s < 8) (m_signals m) ->
+  proj_message (is_enums st) (fin_msg m m') = proj_message es m.
+Proof.
+  intros names es st m m' Hem Hwf [sigs' [-> HR]] Hu Hst Hsg.
+  pose proof Hem as [_ [_ [_ [_ [_ [_ [_ [Hps [_ [_ [_ [Hrc [_ Hre]]]]]]]]]]]]].
+  cbn [m_canid m_name m_size m_order m_sender m_receivers m_desc m_signals strip_msg] in *.
+  unfold fin_msg. rewrite fin_matt_eval; try assumption; try reflexivity.
+  cbn [m_signals]. unfold proj_message.
+  cbn [m_canid m_name m_size m_order m_cycle m_delay m_startdelay m_sendtype m_sender m_receivers m_desc m_attrs m_signals
+       set_m_signals set_m_times set_m_attrs].
+  rewrite !clear_spaces_idem, recs_in_strip, (proj_attrs_img _ (proj1 Hu)).
+  assert (HR' : Forall2 (fun s s' => exists id, Rsig es st id (strip_sig s) s') (m_signals m) sigs').
+  { clear - HR. revert HR. generalize 0. generalize sigs'. generalize (m_signals m). induction l as [|s r IH]; intros l' i H; cbn [map index_from] in H.
+    - inversion H. constructor.
+    - inversion H; subst. constructor; [eexists; eassumption|]. eapply IH. eassumption. }
+  assert (Hlen : zipf fin_sig (m_signals m) sigs' = [] <-> m_signals m = []).
+  { inversion HR'; subst; cbn [zipf]; split; intros; try reflexivity; try discriminate. }
+  assert (Hord : match zipf fin_sig (m_signals m) sigs' with
+                 | [] => LittleEndian
+                 | _ :: _ => match map strip_sig (m_signals m) with [] => LittleEndian | _ :: _ => m_order m end
+                 end = match m_signals m with [] => LittleEndian | _ :: _ => m_order m end).
+  { destruct (m_signals m) eqn:Es; [rewrite (proj2 Hlen eq_refl); reflexivity|].
+    destruct (zipf fin_sig (s :: l) sigs') eqn:Ez; [|reflexivity]. exfalso. destruct Hlen as [Hl1 _]. discriminate (Hl1 eq_refl). }
+  rewrite Hord.
+  assert (Hrecs : sort_by str_ltb (map clear (recs_in m)) = sort_by str_ltb (map clear (m_receivers m))).
+  { unfold recs_in. destruct (m_signals m) eqn:Es.
+    - rewrite (Hre eq_refl). reflexivity.
+    - rewrite map_map. rewrite (map_ext (fun x => clear (clear x)) clear) by (intros; apply clear_spaces_idem).
+      apply sort_str_perm_eq. apply Permutation_map. apply Permutation_sym. apply sort_by_perm. }
+  rewrite Hrecs.
+  assert (Hsigs : map (proj_signal (is_enums st) (zipf fin_sig (m_signals m) sigs')) (zipf fin_sig (m_signals m) sigs')
+                  = map (proj_signal es (m_signals m)) (m_signals m)).
+  { eapply (zipf_map_eq (fun s s' => exists id, Rsig es st id (strip_sig s) s')); [exact HR'|].
+    intros s s' Hs [id HRs]. rewrite Forall_forall in Hsg. destruct (Hsg s Hs) as [Hus [Hcan Hss]].
+    destruct (Rsig_id _ _ _ _ _ HRs) as [_ [A1 [A2 A3]]].
+    rewrite fin_sig_eval by assumption. eapply proj_signal_a; eauto.
+    apply Forall_strip in Hps. rewrite Forall_forall in Hps. apply Hps. assumption. }
+  rewrite Hsigs. reflexivity.
+Qed.
